@@ -170,6 +170,17 @@ func vfC12(w *vfWorld) {
 			}
 		}
 	}
+	if cs.Provider == "plain" && t.Prob("c12.validate-5xx", 200) {
+		// the validation endpoint is in trouble: a stale session it did not confirm must not be honoured
+		cs.Refresh = "unsupported/validate-5xx"
+		kind := vfPick(t, "c12.validate-5xx-kind", []string{"500", "500", "reset-before"})
+		idp.Plan = func(c *vfIdpCall) vfIdpFault {
+			if c.Endpoint == "plain:validate" {
+				return vfIdpFault{Kind: kind}
+			}
+			return vfIdpFault{}
+		}
+	}
 	if cs.Refresh == "fail" {
 		idp.Plan = func(c *vfIdpCall) vfIdpFault {
 			if c.Endpoint == "token:refresh" {
@@ -331,6 +342,7 @@ func vfC12(w *vfWorld) {
 			}
 		}
 	}
+	f9 := map[int]bool{} // tasks whose serving is an occurrence of the known finding F9
 	// ---- (a)/(b): safety, asserted in every run including faulty ones ----
 	for i, tr := range results {
 		if tr.resp == nil || !tr.stale {
@@ -361,6 +373,7 @@ func vfC12(w *vfWorld) {
 					// age (provider without refresh support) BEFORE its validation completed
 					for _, s := range sets {
 						if s.Task != tasks[i].id && s.Seq < r.UpHits[0].Seq {
+							f9[i] = true
 							w.violate("C12", "stale-served-unexplained", "plain/persisted-as-fresh-before-validation",
 								"task T%d was served a stale session (age %v > refresh %v) without validation: %s had already stored it with a reset age before its own validate-URL call completed",
 								i+1, ageAtUse, R, s.Task)
@@ -405,7 +418,9 @@ func vfC12(w *vfWorld) {
 		validateOK, validateSure := true, true
 		for i, tr := range results {
 			if cs.Provider == "plain" {
-				tr.valOK = true
+				tr.valOK = !strings.HasSuffix(cs.Refresh, "validate-5xx")
+				tr.valNo = !tr.valOK
+				validateOK = validateOK && tr.valOK
 				continue
 			}
 			v1, s1 := idTokenValid(g0, tasks[i].startAt)
@@ -449,6 +464,8 @@ func vfC12(w *vfWorld) {
 				if !tr.served && r.Status != 502 && r.Status != 504 {
 					w.violate("C12", "stale-not-served", cs.Store, "task T%d not served (%d) although the provider refreshes within the lock duration", i+1, r.Status)
 				}
+			case !canRefresh && tr.valNo && f9[i]:
+				// this task's outcome is an occurrence of the known finding F9 (already reported above)
 			case !canRefresh && tr.valNo:
 				// (b) both fail: unauthenticated + cookie cleared
 				if tr.served {
